@@ -102,6 +102,10 @@ func flight3Parse(
 					state.ExtendedMasterSecret = true
 				}
 			case *extension.ALPNSelection:
+				// The selection must be one of the protocols this client offered.
+				if !slices.Contains(cfg.SupportedProtocols, ext.Protocol) {
+					return 0, &alert.Alert{Level: alert.Fatal, Description: alert.IllegalParameter}, dtlserrors.ErrALPNNoAppProto
+				}
 				state.NegotiatedProtocol = ext.Protocol
 			}
 		}
